@@ -126,6 +126,7 @@ func (store *fileStore) Reset() error {
 	if err := store.Close(); err != nil {
 		return errors.Wrap(err, "close")
 	}
+	verifHook("step", "Reset:closed", 0, nil)
 	if err := removeFile(store.bodyFname); err != nil {
 		return err
 	}
@@ -141,6 +142,7 @@ func (store *fileStore) Reset() error {
 	if err := removeFile(store.targetSeqNumsFname); err != nil {
 		return err
 	}
+	verifHook("step", "Reset:removed", 0, nil)
 	return store.Refresh()
 }
 
@@ -154,11 +156,13 @@ func (store *fileStore) Refresh() (err error) {
 	if err = store.Close(); err != nil {
 		return err
 	}
+	verifHook("step", "Refresh:closed", 0, nil)
 
 	creationTimePopulated, err := store.populateCache()
 	if err != nil {
 		return err
 	}
+	verifHook("step", "Refresh:populated", 0, nil)
 
 	if store.bodyFile, err = openOrCreateFile(store.bodyFname, 0660); err != nil {
 		return err
@@ -175,16 +179,19 @@ func (store *fileStore) Refresh() (err error) {
 	if store.targetSeqNumsFile, err = openOrCreateFile(store.targetSeqNumsFname, 0660); err != nil {
 		return err
 	}
+	verifHook("step", "Refresh:opened", 0, nil)
 
 	if !creationTimePopulated {
 		if err := store.setSession(); err != nil {
 			return err
 		}
 	}
+	verifHook("step", "Refresh:session", 0, nil)
 
 	if err := store.SetNextSenderMsgSeqNum(store.NextSenderMsgSeqNum()); err != nil {
 		return errors.Wrap(err, "set next sender")
 	}
+	verifHook("step", "Refresh:sender", 0, nil)
 
 	if err := store.SetNextTargetMsgSeqNum(store.NextTargetMsgSeqNum()); err != nil {
 		return errors.Wrap(err, "set next target")
@@ -227,6 +234,7 @@ func (store *fileStore) setSession() error {
 	if _, err := store.sessionFile.Seek(0, io.SeekStart); err != nil {
 		return fmt.Errorf("unable to rewind file: %s: %s", store.sessionFname, err.Error())
 	}
+	verifHook("seek-start", store.sessionFname, 0, nil)
 
 	data, err := store.cache.CreationTime().MarshalText()
 	if err != nil {
@@ -235,10 +243,12 @@ func (store *fileStore) setSession() error {
 	if _, err := store.sessionFile.Write(data); err != nil {
 		return fmt.Errorf("unable to write to file: %s: %s", store.sessionFname, err.Error())
 	}
+	verifHook("write", store.sessionFname, -1, data)
 	if store.fileSync {
 		if err := store.sessionFile.Sync(); err != nil {
 			return fmt.Errorf("unable to flush file: %s: %s", store.sessionFname, err.Error())
 		}
+		verifHook("sync", store.sessionFname, 0, nil)
 	}
 	return nil
 }
@@ -249,13 +259,16 @@ func (store *fileStore) setSeqNum(f *os.File, seqNum int) error {
 	if _, err := f.Seek(0, io.SeekStart); err != nil {
 		return fmt.Errorf("unable to rewind file: %s: %s", f.Name(), err.Error())
 	}
+	verifHook("seek-start", f.Name(), 0, nil)
 	if _, err := fmt.Fprintf(f, "%019d", seqNum); err != nil {
 		return fmt.Errorf("unable to write to file: %s: %s", f.Name(), err.Error())
 	}
+	verifHook("write-seqnum", f.Name(), int64(seqNum), nil)
 	if store.fileSync {
 		if err := f.Sync(); err != nil {
 			return fmt.Errorf("unable to flush file: %s: %s", f.Name(), err.Error())
 		}
+		verifHook("sync", f.Name(), 0, nil)
 	}
 	return nil
 }
@@ -318,16 +331,20 @@ func (store *fileStore) SaveMessage(seqNum int, msg []byte) error {
 	if err != nil {
 		return fmt.Errorf("unable to seek to end of file: %s: %s", store.bodyFname, err.Error())
 	}
+	verifHook("seek-end", store.bodyFname, offset, nil)
 	if _, err := store.headerFile.Seek(0, io.SeekEnd); err != nil {
 		return fmt.Errorf("unable to seek to end of file: %s: %s", store.headerFname, err.Error())
 	}
+	verifHook("seek-end", store.headerFname, -1, nil)
 	if _, err := fmt.Fprintf(store.headerFile, "%d,%d,%d\n", seqNum, offset, len(msg)); err != nil {
 		return fmt.Errorf("unable to write to file: %s: %s", store.headerFname, err.Error())
 	}
+	verifHook("write-appended", store.headerFname, -1, nil)
 
 	if _, err := store.bodyFile.Write(msg); err != nil {
 		return fmt.Errorf("unable to write to file: %s: %s", store.bodyFname, err.Error())
 	}
+	verifHook("write", store.bodyFname, -1, msg)
 	if store.fileSync {
 		return store.syncBodyAndHeaderFilesLocked()
 	}
@@ -339,6 +356,7 @@ func (store *fileStore) SaveMessageAndIncrNextSenderMsgSeqNum(seqNum int, msg []
 	if err != nil {
 		return err
 	}
+	verifHook("step", "SaveMessageAndIncrNextSenderMsgSeqNum:saved", 0, nil)
 	return store.IncrNextSenderMsgSeqNum()
 }
 
@@ -348,6 +366,8 @@ func (store *fileStore) syncBodyAndHeaderFilesLocked() error {
 	} else if err = store.headerFile.Sync(); err != nil {
 		return fmt.Errorf("unable to flush file: %s: %s", store.headerFname, err.Error())
 	}
+	verifHook("sync", store.bodyFname, 0, nil)
+	verifHook("sync", store.headerFname, 0, nil)
 	return nil
 }
 
@@ -374,6 +394,7 @@ func (store *fileStore) IterateMessages(beginSeqNum, endSeqNum int, cb func([]by
 	if _, err = headerFile.Seek(0, io.SeekStart); err != nil {
 		return fmt.Errorf("unable to seek to start of file: %s: %s", store.headerFname, err.Error())
 	}
+	verifHook("ro-seek-start", store.headerFname, 0, nil)
 
 	// Iterate over the header file
 	for {
